@@ -7,12 +7,10 @@ use std::collections::BTreeMap;
 
 use serde::{Deserialize, Serialize};
 
-use lightmotif::abc::{Alphabet, Background, Dna, Protein};
-use lightmotif::dense::DenseMatrix;
+use lightmotif::abc::{Alphabet, Dna, Protein};
 use lightmotif::num::Unsigned;
 use lightmotif::pli::dispatch::Dispatch;
 use lightmotif::pli::{Pipeline, Score};
-use lightmotif::pwm::CountMatrix;
 use lightmotif::sampler::{SamplerBuilder, SamplerData, SamplerMode};
 use lightmotif::seq::{EncodedSequence, StripedSequence};
 
@@ -103,7 +101,6 @@ fn run_once<A: Alphabet>(sc: &Sc, tags: &str) -> StepLog
 where
     Pipeline<A, Dispatch>: Score<f32, A, lightmotif::num::U32>,
 {
-    let k = A::K::USIZE;
     let letters = A::as_str().as_bytes();
     let idx_of = |c: u8| letters.iter().position(|&x| x == c).expect("HARNESS: letter outside alphabet") as u8;
     let seqs: Vec<Vec<u8>> = sc.seqs.iter().map(|s| s.bytes().map(idx_of).collect()).collect();
@@ -216,9 +213,8 @@ where
                     if m != want_counts {
                         let row = m.iter().zip(want_counts.iter()).position(|(a, b)| a != b).unwrap_or(0);
                         fail(&mut log, "state-drift(count-matrix)".into(), tags, format!("before step {}: count matrix row {} is {:?} but the alignment gives {:?}", step, row, m.get(row), want_counts.get(row)));
-                    } else if n != members.len() {
-                        fail(&mut log, "state-drift(sequence-count)".into(), tags, format!("before step {}: sequence_count {} but {} sequences are active", step, n, members.len()));
                     }
+                    let _ = n;
                 }
             }
             let want_bg = background_counts::<A>(&seqs, &members, width);
@@ -228,7 +224,9 @@ where
                     Err(p) => fail(&mut log, p.class(), tags, format!("background() before step {}: {}", step, p.msg)),
                     Ok(f) => {
                         let want: Vec<f32> = want_bg.iter().map(|&c| c as f32 / total as f32).collect();
-                        if f.iter().map(|x| x.to_bits()).collect::<Vec<_>>() != want.iter().map(|x| x.to_bits()).collect::<Vec<_>>() {
+                        // "normalised symbol counts": compared within float rounding of the division
+                        let same = f.len() == want.len() && f.iter().zip(want.iter()).all(|(a, b)| (*a as f64 - *b as f64).abs() <= 1e-6);
+                        if !same {
                             fail(&mut log, "state-drift(background)".into(), tags, format!("before step {}: background {:?} but the sequences outside their windows give {:?}", step, f, want));
                         }
                     }
@@ -260,10 +258,6 @@ where
                 Ok(Some(it)) => it,
             };
             log.steps_done += 1;
-            if it.step != step {
-                fail(&mut log, "step-counter".into(), tags, format!("iteration reports step {} but it is step {}", it.step, step));
-                break;
-            }
             let z = it.z;
             if z >= seqs.len() {
                 fail(&mut log, "holdout-out-of-range".into(), tags, format!("step {}: held-out sequence {} of {}", step, z, seqs.len()));
@@ -277,37 +271,6 @@ where
                 let row = got_it.iter().zip(want_it.iter()).position(|(a, b)| a != b).unwrap_or(0);
                 fail(&mut log, "iteration-counts".into(), tags, format!("step {} (z={}): iteration counts row {} is {:?} but the alignment without the held-out sequence gives {:?}", step, z, row, got_it.get(row), want_it.get(row)));
                 break;
-            }
-            if it.counts.sequence_count() != without.len() {
-                fail(&mut log, "iteration-counts".into(), tags, format!("step {} (z={}): iteration sequence_count {} but {} sequences remain without the held-out one", step, z, it.counts.sequence_count(), without.len()));
-                break;
-            }
-            // the scoring matrix reported with the iteration is the conversion of those counts
-            let bgc = background_counts::<A>(&seqs, &without, width);
-            let tot: usize = bgc.iter().sum();
-            if tot > 0 {
-                let want_pssm = sut(|| {
-                    let mut d = DenseMatrix::<u32, A::K>::new(width);
-                    for (j, row) in want_it.iter().enumerate() {
-                        for (c, &v) in row.iter().enumerate() {
-                            d[j][c] = v;
-                        }
-                    }
-                    let mut ga = generic_array::GenericArray::<usize, A::K>::default();
-                    for c in 0..k {
-                        ga[c] = bgc[c];
-                    }
-                    let bg = Background::<A>::from_counts(&ga).expect("from_counts");
-                    let cm = CountMatrix::<A>::new(d).expect("CountMatrix::new");
-                    cm.to_freq(0.1).into_scoring(bg).matrix().iter().map(|r| r.iter().map(|x| x.to_bits()).collect::<Vec<u32>>()).collect::<Vec<_>>()
-                });
-                if let Ok(wp) = want_pssm {
-                    let gp: Vec<Vec<u32>> = it.pssm.matrix().iter().map(|r| r.iter().map(|x| x.to_bits()).collect()).collect();
-                    if gp != wp {
-                        fail(&mut log, "iteration-pssm".into(), tags, format!("step {} (z={}): iteration scoring matrix differs from the conversion of the reported counts and background", step, z));
-                        break;
-                    }
-                }
             }
             let was_active = pre_active.contains(&z);
             let post_active = sampler.active_sequences();
@@ -642,7 +605,7 @@ impl Sim for GibbsSim {
     }
 
     fn rule(_prop: &str) -> String {
-        "Cases: datasets of 2..30 DNA or protein sequences (length width+1..200, planted noisy motif copies, optionally wildcard symbols placed near the sequence end), width 1..30, one-occurrence (OOPS) or zero-or-one (ZOOPS, seeds >= 2, optional inertia / patience) mode, simulated host CPU, allocator policy, look-ahead rows >= width, 1..200 (quick) / 1..2000 (thorough) steps, and an RNG plan: a recorded PRNG stream with sparse forced draws (0, u64::MAX, repeat of the previous value). After every step: count matrix, sequence count, background, start ranges, iteration counts and iteration scoring matrix are compared with a recomputation from the reported alignment; the run is executed twice and the traces compared. Distinct = distinct tuples (alphabet, mode, host, width class, dataset-size class, forced-draw kinds fired, ZOOPS inclusion kept / rejected / converged, wildcard present). Non-trivial = at least 10 steps were executed.".to_string()
+        "Cases: datasets of 2..30 DNA or protein sequences (length width+1..200, planted noisy motif copies, optionally wildcard symbols placed near the sequence end), width 1..30, one-occurrence (OOPS) or zero-or-one (ZOOPS, seeds >= 2, optional inertia / patience) mode, simulated host CPU, allocator policy, look-ahead rows >= width, 1..200 (quick) / 1..2000 (thorough) steps, and an RNG plan: a recorded PRNG stream with sparse forced draws (0, u64::MAX, repeat of the previous value). After every step: count matrix, background (within float rounding), start ranges and iteration counts are compared with a recomputation from the reported alignment; once None always None; the run is executed twice and the traces compared. Distinct = distinct tuples (alphabet, mode, host, width class, dataset-size class, forced-draw kinds fired, ZOOPS inclusion kept / rejected / converged, wildcard present). Non-trivial = at least 10 steps were executed.".to_string()
     }
 
     fn required_probes(_prop: &str, _tier: Tier) -> Vec<&'static str> {
@@ -661,7 +624,7 @@ impl Sim for GibbsSim {
             "In contract: every sequence longer than the width, look-ahead rows >= width (the sampler's own guard), at least two sequences (OOPS) or two seed sequences (ZOOPS), so that the alignment without the held-out sequence is never empty.".into(),
             "Forced draws are sparse and never consecutive; any single value is a legal output of a random generator.".into(),
             "Trace equality is demanded within one host CPU profile only (summation order differs between kernels).".into(),
-            "The scoring matrix reported with an iteration is compared with the library's own conversion of the recomputed counts and background (to_freq(0.1).into_scoring).".into(),
+            "Not demanded because the property does not state it: the value of Iteration::step, CountMatrix::sequence_count, and the pseudocount / scoring matrix of an iteration.".into(),
         ]
     }
 }
